@@ -138,7 +138,7 @@ func parseContractText(w *World, pkgPath, file string, src []byte) error {
 						c.Props = append(c.Props, strings.TrimSuffix(toks[i+1], ","))
 						i++
 					}
-				case "arith", "inline", "paths", "params", "tags", "unrollall":
+				case "arith", "paths", "params", "tags", "unrollall", "uses":
 					if i+1 < len(toks) {
 						c.Flags[toks[i]] = toks[i+1]
 						i++
